@@ -10,6 +10,7 @@ CONSTANTS
   Windows <- SM_Windows
   DWindows <- SM_DWindows
   RsdCfgs <- SM_RsdCfgs
+  NearCfgs <- SM_NearCfgs
   GridIds <- SM_GridIds
   Methods <- MC_Methods
   QueryTimes <- SM_Query
@@ -25,6 +26,7 @@ PROPERTY ZeroDelayIsIdentity
 PROPERTY ResampleSameTimesIsIdentity
 PROPERTY InterpolationBounded
 PROPERTY GroupedIsColumnwise
+PROPERTY NearDelaysStayApart
 PROPERTY WindowExact
 PROPERTY WindowErrorIffEmpty
 CHECK_DEADLOCK FALSE
